@@ -73,6 +73,7 @@ type Exec struct {
 	initObjects int
 
 	tagIDs map[string]int64
+	tagAux map[*Term]*Term // language variable -> index into tagOtherStrings (see tagString)
 	oblCache map[*ssa.Function]bool
 	history  bool // second run of a two-history harness: vrt.HistoryStep() is true
 	observes []observeRec
@@ -451,6 +452,14 @@ func (ex *Exec) zeroValue(t types.Type) Value {
 	if isRatType(t) {
 		return zeroConst(SRat)
 	}
+	if _, isPtr := t.(*types.Pointer); !isPtr {
+		if namedIs(t, "strings", "Builder") || namedIs(t, "bytes", "Buffer") {
+			return Str("") // held by value inside a struct: the content
+		}
+		if namedIs(t, "sync", "Once") || namedIs(t, "sync", "Mutex") || namedIs(t, "sync", "RWMutex") {
+			return False
+		}
+	}
 	switch u := t.Underlying().(type) {
 	case *types.Basic:
 		switch {
@@ -478,6 +487,12 @@ func (ex *Exec) zeroValue(t types.Type) Value {
 		return &FuncVal{}
 	case *types.Chan:
 		return nilPtr()
+	case *types.Struct:
+		sv := &StructVal{Typ: t, F: make([]Value, u.NumFields())}
+		for i := range sv.F {
+			sv.F[i] = ex.zeroValue(u.Field(i).Type())
+		}
+		return sv
 	}
 	unsupported("zero value of %v", t)
 	return nil
@@ -493,6 +508,16 @@ func (ex *Exec) newObjectOf(t types.Type, name string) *PtrVal {
 		o := ex.heap.newObj(KMap, nil, 0, name)
 		return ptrTo(o, -1)
 	}
+	if namedIs(t, "sync", "Once") {
+		o := ex.heap.newObj(KCell, t, 1, name)
+		o.cells[0] = False // done
+		return ptrTo(o, 0)
+	}
+	if namedIs(t, "sync", "Mutex") || namedIs(t, "sync", "RWMutex") {
+		o := ex.heap.newObj(KCell, t, 1, name)
+		o.cells[0] = False
+		return ptrTo(o, 0)
+	}
 	if namedIs(t, "strings", "Builder") || namedIs(t, "bytes", "Buffer") {
 		o := ex.heap.newObj(KBuilder, t, 1, name)
 		o.cells[0] = Str("")
@@ -503,9 +528,6 @@ func (ex *Exec) newObjectOf(t types.Type, name string) *PtrVal {
 		o := ex.heap.newObj(KStruct, t, u.NumFields(), name)
 		for i := 0; i < u.NumFields(); i++ {
 			ft := u.Field(i).Type()
-			if _, isStruct := ft.Underlying().(*types.Struct); isStruct && !isTagType(ft) && !isRatType(ft) {
-				unsupported("nested struct field %s in %v", u.Field(i).Name(), t)
-			}
 			o.cells[i] = ex.zeroValue(ft)
 		}
 		return ptrTo(o, -1)
@@ -640,11 +662,16 @@ func (ex *Exec) load(p *PtrVal, g *Term, where string) Value {
 		if t.Idx < 0 {
 			if t.Obj.kind == KBuilder {
 				x = t.Obj.cells[0]
+			} else if t.Obj.kind == KStruct {
+				x = &StructVal{Typ: t.Obj.typ, F: append([]Value(nil), t.Obj.cells...)}
 			} else {
 				unsupported("load of whole aggregate %v at %s", t.Obj.typ, where)
 			}
 		} else {
 			x = t.Obj.cells[t.Idx]
+			if t.Sub != "" {
+				x = subGet(x, subPath(t.Sub))
+			}
 		}
 		if first {
 			acc = x
@@ -662,19 +689,30 @@ func (ex *Exec) store(p *PtrVal, val Value, g *Term, where string) {
 			ex.panicIf(And(g, t.G), "nil pointer store at "+where)
 			continue
 		}
-		if t.Idx < 0 {
-			unsupported("store of whole aggregate at %s", where)
-		}
 		c := And(g, t.G)
 		if t.Obj.born != nil && c == t.Obj.born {
 			// the object only exists where this store happens: no merge with the previous content needed
 			c = True
 		}
+		if t.Idx < 0 {
+			sv, ok := val.(*StructVal)
+			if !ok || t.Obj.kind != KStruct || len(sv.F) != len(t.Obj.cells) {
+				unsupported("store of whole aggregate at %s", where)
+			}
+			for i := range sv.F {
+				t.Obj.cells[i] = iteValue(c, sv.F[i], t.Obj.cells[i])
+			}
+			continue
+		}
+		if t.Sub != "" {
+			t.Obj.cells[t.Idx] = subSet(t.Obj.cells[t.Idx], subPath(t.Sub), func(old Value) Value { return iteValue(c, val, old) })
+			continue
+		}
 		t.Obj.cells[t.Idx] = iteValue(c, val, t.Obj.cells[t.Idx])
 	}
 }
 
-func (ex *Exec) mapLookup(m *PtrVal, key *Term, elem types.Type, g *Term) (Value, *Term) {
+func (ex *Exec) mapLookup(m *PtrVal, key Value, elem types.Type, g *Term) (Value, *Term) {
 	var val Value
 	ok := False
 	first := true
@@ -684,7 +722,7 @@ func (ex *Exec) mapLookup(m *PtrVal, key *Term, elem types.Type, g *Term) (Value
 		present := False
 		if t.Obj != nil {
 			for _, e := range t.Obj.entries {
-				hit := And(e.G, Eq(e.Key.(*Term), key))
+				hit := And(e.G, keyEq(e.Key, key))
 				if hit.IsFalse() {
 					continue
 				}
@@ -703,7 +741,7 @@ func (ex *Exec) mapLookup(m *PtrVal, key *Term, elem types.Type, g *Term) (Value
 	return val, ok
 }
 
-func (ex *Exec) mapUpdate(m *PtrVal, key *Term, val Value, g *Term) {
+func (ex *Exec) mapUpdate(m *PtrVal, key Value, val Value, g *Term) {
 	for _, t := range m.T {
 		if t.Obj == nil {
 			ex.panicIf(And(g, t.G), "assignment to entry in nil map")
@@ -723,6 +761,7 @@ func (ex *Exec) mapUpdate(m *PtrVal, key *Term, val Value, g *Term) {
 type ElemRef struct {
 	S   *SliceVal
 	Idx *Term
+	Sub string // field path inside a struct element (see PtrTarget.Sub)
 }
 
 func (fr *frame) step(ins ssa.Instruction, lg *Term, b *ssa.BasicBlock) {
@@ -741,6 +780,10 @@ func (fr *frame) step(ins ssa.Instruction, lg *Term, b *ssa.BasicBlock) {
 		p.T[0].Obj.born = g
 		fr.env[x] = p
 	case *ssa.FieldAddr:
+		if er, ok := fr.eval(x.X).(*ElemRef); ok {
+			fr.env[x] = &ElemRef{S: er.S, Idx: er.Idx, Sub: er.Sub + "." + fmt.Sprint(x.Field)}
+			return
+		}
 		p := prunePtr(fr.eval(x.X).(*PtrVal), g)
 		var ts []PtrTarget
 		for _, t := range p.T {
@@ -748,10 +791,15 @@ func (fr *frame) step(ins ssa.Instruction, lg *Term, b *ssa.BasicBlock) {
 				ex.panicIf(And(g, t.G), "nil pointer dereference (field address) at "+where())
 				continue
 			}
+			if t.Idx >= 0 {
+				// a pointer to a cell that holds a struct by value (array element, nested struct field)
+				ts = append(ts, PtrTarget{t.G, t.Obj, t.Idx, t.Sub + "." + fmt.Sprint(x.Field)})
+				continue
+			}
 			if t.Obj.kind != KStruct {
 				unsupported("field address into %v at %s", t.Obj.typ, where())
 			}
-			ts = append(ts, PtrTarget{t.G, t.Obj, x.Field})
+			ts = append(ts, PtrTarget{G: t.G, Obj: t.Obj, Idx: x.Field})
 		}
 		if len(ts) == 0 {
 			// always nil: value irrelevant (panic recorded)
@@ -776,11 +824,11 @@ func (fr *frame) step(ins ssa.Instruction, lg *Term, b *ssa.BasicBlock) {
 					ex.panicIf(And(g, t.G), "array index out of range at "+where())
 					continue
 				}
-				ts = append(ts, PtrTarget{t.G, t.Obj, int(idx.i)})
+				ts = append(ts, PtrTarget{G: t.G, Obj: t.Obj, Idx: int(idx.i)})
 			}
 			fr.env[x] = normPtr(ts)
 		case *SliceVal:
-			fr.env[x] = &ElemRef{base, fr.term(x.Index)}
+			fr.env[x] = &ElemRef{S: base, Idx: fr.term(x.Index)}
 			// bounds check
 			idx := fr.term(x.Index)
 			oob := Or(BVBin(OpBVSLt, idx, BV(0)), Not(BVBin(OpBVSLt, idx, base.Len)))
@@ -836,6 +884,12 @@ func (fr *frame) step(ins ssa.Instruction, lg *Term, b *ssa.BasicBlock) {
 		fr.env[x] = fr.doCall(x.Common(), x, g, where())
 	case *ssa.Extract:
 		fr.env[x] = fr.eval(x.Tuple).(TupleVal)[x.Index]
+	case *ssa.Field:
+		sv, ok := fr.eval(x.X).(*StructVal)
+		if !ok {
+			unsupported("field of %T at %s", fr.eval(x.X), where())
+		}
+		fr.env[x] = sv.F[x.Field]
 	case *ssa.MakeInterface:
 		v := fr.eval(x.X)
 		if isErrorType(x.Type()) {
@@ -874,13 +928,13 @@ func (fr *frame) step(ins ssa.Instruction, lg *Term, b *ssa.BasicBlock) {
 		o.born = g
 		fr.env[x] = ptrTo(o, -1)
 	case *ssa.MapUpdate:
-		ex.mapUpdate(fr.eval(x.Map).(*PtrVal), fr.term(x.Key), fr.eval(x.Value), g)
+		ex.mapUpdate(fr.eval(x.Map).(*PtrVal), fr.eval(x.Key), fr.eval(x.Value), g)
 	case *ssa.Lookup:
 		mt, ok := x.X.Type().Underlying().(*types.Map)
 		if !ok {
 			unsupported("string index at %s", where())
 		}
-		v, okT := ex.mapLookup(fr.eval(x.X).(*PtrVal), fr.term(x.Index), mt.Elem(), g)
+		v, okT := ex.mapLookup(fr.eval(x.X).(*PtrVal), fr.eval(x.Index), mt.Elem(), g)
 		if x.CommaOk {
 			fr.env[x] = TupleVal{v, okT}
 		} else {
@@ -915,6 +969,7 @@ func (fr *frame) step(ins ssa.Instruction, lg *Term, b *ssa.BasicBlock) {
 
 func (ex *Exec) loadElem(p *ElemRef, g *Term, where string, t types.Type) Value {
 	s := p.S
+	path := subPath(p.Sub)
 	get := func(i int64) Value {
 		if i < 0 {
 			return nil
@@ -924,7 +979,7 @@ func (ex *Exec) loadElem(p *ElemRef, g *Term, where string, t types.Type) Value 
 			ex.unwinds = append(ex.unwinds, guarded{And(g, BVBin(OpBVSLt, BV(i), s.Len)), "slice element beyond modelled prefix at " + where})
 			return nil
 		}
-		return s.Elems[i]
+		return subGet(s.Elems[i], path)
 	}
 	if p.Idx.op == OpConst {
 		v := get(p.Idx.i)
@@ -951,8 +1006,23 @@ func (ex *Exec) loadElem(p *ElemRef, g *Term, where string, t types.Type) Value 
 		}
 		return acc
 	}
-	unsupported("symbolic slice index at %s", where)
-	return nil
+	// free symbolic index over the represented prefix (the slice length must be concrete)
+	if s.Len.op != OpConst || int(s.Len.i) > len(s.Elems) || s.Len.i > 512 {
+		unsupported("symbolic slice index into a slice of symbolic length at %s", where)
+	}
+	var acc Value
+	for i := int64(0); i < s.Len.i; i++ {
+		v := get(i)
+		if acc == nil {
+			acc = v
+		} else {
+			acc = iteValue(Eq(p.Idx, BV(i)), v, acc)
+		}
+	}
+	if acc == nil {
+		return ex.zeroValue(t)
+	}
+	return acc
 }
 
 func (fr *frame) slice(x *ssa.Slice, g *Term, where string) Value {
@@ -1197,6 +1267,14 @@ func (fr *frame) binop(x *ssa.BinOp, where string) Value {
 				return eq
 			}
 			return Not(eq)
+		}
+	case *StructVal:
+		d := valuesDiffer(av, b)
+		if x.Op == token.EQL {
+			return Not(d)
+		}
+		if x.Op == token.NEQ {
+			return d
 		}
 	case *FuncVal:
 		bv := b.(*FuncVal)
